@@ -12,6 +12,10 @@ items = []
 for f in sorted(glob.glob(os.path.join(VERIF, 'selftest', 'mutants', '*.diff'))):
     items.append((os.path.basename(f)[:3].upper(), f))
 for f in sorted(glob.glob(os.path.join(VERIF, 'seeded', '*', 'patch.diff'))):
+    import json
+    meta = json.load(open(os.path.join(os.path.dirname(f), 'meta.json')))
+    if meta.get('obsolete'):
+        continue        # its precondition was removed by a repair in /repo (see meta.json)
     items.append((os.path.basename(os.path.dirname(f))[:3], f))
 W = '/tmp/hp-selftest-wt'
 res = []
